@@ -190,6 +190,34 @@ func run(c *mon.Case) {
 			p := r.Intn(len(tok) + 1)
 			line, mode = tok[:p]+"_"+tok[p:], "underscore"
 		}
+		if r.Intn(25) == 0 {
+			// very long lines (around and beyond the line reader's 4 KiB buffer): a
+			// prefixed literal padded with zeros behind its prefix, or a long decimal
+			n := []int{4090, 4094, 4095, 4096, 4097, 4100, 8190, 8192, 8193, 12000, 20000}[r.Intn(11)]
+			neg := ""
+			if r.Intn(2) == 0 {
+				neg = "-"
+			}
+			switch r.Intn(3) {
+			case 0:
+				line = neg + "0x" + strings.Repeat("0", n) + fmt.Sprintf("%x", r.Uint64())
+			case 1:
+				line = neg + "0b" + strings.Repeat("0", n) + fmt.Sprintf("%b", r.Uint32())
+			default:
+				ds := make([]byte, n)
+				for i := range ds {
+					ds[i] = byte('0' + r.Intn(10))
+				}
+				ds[0] = byte('1' + r.Intn(9))
+				line = neg + string(ds)
+			}
+			if r.Intn(4) == 0 { // junk early in the line must still be noticed
+				p := 2 + r.Intn(200)
+				line = line[:p] + "z" + line[p+1:]
+			}
+			mode = "long-line"
+			c.Count("value_long_lines", 1)
+		}
 		uichk.Feed.Reset()
 		uichk.Feed.EOF = false
 		uichk.Feed.Push(line)
@@ -260,7 +288,7 @@ func min(a, b int) int {
 func main() {
 	mon.Main(mon.Spec{
 		Prop: "C30",
-		Rule: "case = token/line: literals in base 10/16/2/8 with 1..65 digits and both prefix spellings, boundary tokens (2^64-1 and 2^64 in every base, 0, 00, 08, bare prefixes, 0b2, 0xg), malformed tokens (one inserted '_', sign, space, letter), all kinds of one- and two-character tokens; value lines additionally with '-', '+', padding, underscores and empty, at widths 1..16 and 255; non-trivial = accepted value, or address token that is not a plain multi-digit decimal; distinct by token",
+		Rule: "case = token/line: literals in base 10/16/2/8 with 1..65 digits and both prefix spellings, boundary tokens (2^64-1 and 2^64 in every base, 0, 00, 08, bare prefixes, 0b2, 0xg), malformed tokens (one inserted '_', sign, space, letter), all kinds of one- and two-character tokens; value lines additionally with '-', '+', padding, underscores and empty, at widths 1..16 and 255, one line in 25 being 4-20 thousand characters long (zero-padded prefixed literals, long decimals, some with an early junk character); non-trivial = accepted value, or address token that is not a plain multi-digit decimal; distinct by token",
 		Explanation: "oracle: an independent literal parser: an address token of one of the four stated forms must give exactly its value (< 2^64), every other token must be answered with an error, never a panic; a typed value with optional '-' must become the integer modulo 2^(8w) as a w-byte constant and consume exactly one line; empty lines, underscores and malformed numbers must be rejected; '+'-prefixed and whitespace-padded lines are checked for no-crash only",
 		Assumptions: []string{"parseAddr and readValue reached through verif hooks; the line is fed through the replaced line reader"},
 		Cases: func(t string) int {
@@ -275,7 +303,7 @@ func main() {
 			}
 			return 100000
 		},
-		RequiredCounts: []string{"addr_tokens", "values_accepted", "values_rejected"},
+		RequiredCounts: []string{"addr_tokens", "values_accepted", "values_rejected", "value_long_lines"},
 		Run:            run,
 	})
 }
